@@ -441,6 +441,8 @@ TypeClauses(e) ==
           Cl("C09.one_ref", kn /\ isref /\ OKnownT(T),
                  Cardinality({i \in DOMAIN OUnits(T) : OUnits(T)[i].is_ref}) = 1),
           Cl("C07.prefix_consistent", dk /\ isref /\ OKnownT(T) /\ Decl.types[T].crate # "gen", PfxPairsConsistent(T)),
+          \* the amount type's own constants: one and zero
+          Cl("C08.amount_constants", Has(e, "amnt_one"), SameAmount(e.amnt_one, XOne) /\ SameAmount(e.amnt_zero, XZero)),
           Cl("C08.amount_type", T = "Amount",
                  /\ e.iter = <<"One">> /\ e.kind = "ref"
                  /\ OUnits(T)[1].sym.cp = <<>> /\ XEq(OUnits(T)[1].scale, XOne)) >>
